@@ -405,6 +405,24 @@ func matchCase(env *vlib.Env, idx int, rep *vlib.Reporter) {
 		rep.Violationf("roundtrip:unstable", map[string]any{"definition": rd}, "re-encoding the decoded definition gives different bytes")
 	}
 	rep.Obs("roundtrips", 1)
+	// an encoding stays what it was when it was returned, whatever is encoded afterwards
+	kept := append([]byte(nil), enc...)
+	r2 := vlib.NewRng(env.Seed, 1717, uint64(idx))
+	for k := 0; k < 3; k++ {
+		o := genDefinition(r2)
+		if o.repo.Validate() == nil {
+			_ = o.repo.MarshalBytes()
+		}
+	}
+	if !bytes.Equal(enc, kept) {
+		rep.Violationf("roundtrip:encoding-changed-after-return", map[string]any{"definition": rd}, "the bytes returned by MarshalBytes changed when other definitions were encoded afterwards")
+		return
+	}
+	var again ss.EventTriggerDefinition
+	if err := again.UnmarshalBytes(enc); err != nil || render(&again) != rd {
+		rep.Violationf("roundtrip:encoding-changed-after-return", map[string]any{"definition": rd}, "an encoding no longer decodes to its definition after other definitions were encoded")
+		return
+	}
 	// P4a filter derivable
 	q, ferr := d.repo.ToFilterQuery()
 	if ferr != nil {
